@@ -18,7 +18,7 @@ def run(ctx):
     # long runs with frequent GVT rounds so that fossil collection happens often and rollbacks follow it
     agg = runlib.run_matrix(ctx, "par re-execution (entries released by fossil collection, re-based checkpoint refs, rollbacks after fossil)",
                             30, 500, oracle_keys=("s_rb_mismatch", "s_below_gvt"), threads=(2, 3, 4), ckpts=(1, 2, 3, 7),
-                            fossil_heavy=True)
+                            fossil_heavy=True, sparse=4)
     if agg:
         ctx.coverage["distinct_nontrivial"] = agg.tot.get("s_rb_after_fossil", 0)
         ctx.coverage["fossil_collections"] = agg.tot.get("fossil", 0)
